@@ -47,7 +47,7 @@ def is_zero_data(t, fx):
     return any(x is want for x in T.subterms(t))
 
 
-def run(chk, S: Session):
+def _run_own(chk, S: Session):
     chk.trust("typing rules of transition / marginalise / revert / merge / bayes_rule_* / apply_flat (tdomain.py)")
     r1 = chk.rule("R-C02-1", "step(): predict -> linearise at the prediction and at t+dt -> update that prediction; bookkeeping of t, num_steps, prior, fun_evals", floor=60)
     r2 = chk.rule("R-C02-2", "init(): initial posterior, optional initial-constraint update on zero data, counters", floor=20)
@@ -291,3 +291,12 @@ def linearisation_threading(S: Session):
                 ok_out = head(aux_out) is last_state or aux_out is last_state
                 detail = f"{len(lins)} linearisations chained: {ok_chain}; stored state {T.show(head(aux_out), 3)}"
                 yield (f"{name} threads the constraint state", bool(ok_chain and ok_out), detail, where, cfg)
+
+
+def run(chk, S: Session):
+    _run_own(chk, S)
+    from ..harness import borrow
+
+    rb = chk.rule("R-C02-B", "clauses of this statement decided by rules of C04 (calibration bookkeeping of the initial-constraint update) and C17 (documented Jacobian block structure)", floor=4)
+    borrow(chk, S, rb, "C04", lambda r, c: r == "R-C04-2" and "init" in c)
+    borrow(chk, S, rb, "C17", lambda r, c: r == "R-C17-1")
